@@ -27,6 +27,9 @@ pub enum Ev {
     /// close channel i; when its tracker's count hits zero, run one listener poll at the yield
     /// point inside the tracker's drop (count already zero, key not yet sent)
     CloseNested(u8),
+    /// the peer of held channel i hangs up: the application polls the channel once and sees its
+    /// request stream end, but keeps the channel (it still counts until it is dropped)
+    HangUp(u8),
 }
 
 #[derive(Default)]
@@ -57,6 +60,7 @@ struct KeyedTransport {
     key: u8,
     seq: u32,
     obs: Rc<RefCell<Obs>>,
+    hung: Rc<std::cell::Cell<bool>>,
 }
 impl Drop for KeyedTransport {
     fn drop(&mut self) {
@@ -66,7 +70,11 @@ impl Drop for KeyedTransport {
 impl Stream for KeyedTransport {
     type Item = Result<ClientMessage<u32>, std::io::Error>;
     fn poll_next(self: Pin<&mut Self>, _: &mut Context<'_>) -> Poll<Option<Self::Item>> {
-        Poll::Pending
+        if self.hung.get() {
+            Poll::Ready(None)
+        } else {
+            Poll::Pending
+        }
     }
 }
 impl Sink<Response<u32>> for KeyedTransport {
@@ -127,7 +135,8 @@ pub fn replay(n: u32, hist: &[Ev]) -> Outcome {
     let filter = listener.max_channels_per_key(n, |c: &Chan| CKey(c.transport().key));
     let filter = Rc::new(RefCell::new(Box::pin(filter)));
     // yielded channels held by the application: (seq, key, channel)
-    type Held = Vec<Option<(u32, u8, Box<dyn std::any::Any>)>>;
+    type HeldChan = (Pin<Box<dyn Stream<Item = ()>>>, Rc<std::cell::Cell<bool>>, bool);
+    type Held = Vec<Option<(u32, u8, HeldChan)>>;
     let held: Rc<RefCell<Held>> = Rc::new(RefCell::new(Vec::new()));
     let mut next_seq = 0u32;
     let mut violation: Option<String> = None;
@@ -180,7 +189,10 @@ pub fn replay(n: u32, hist: &[Ev]) -> Outcome {
                 Poll::Ready(Some(tc)) => {
                     let seq = tc.get_ref().get_ref().seq;
                     let k = tc.get_ref().get_ref().key;
-                    held.borrow_mut().push(Some((seq, k, Box::new(tc))));
+                    let hung = tc.get_ref().get_ref().hung.clone();
+                    use futures::StreamExt;
+                    let boxed: Pin<Box<dyn Stream<Item = ()>>> = Box::pin(tc.map(|_| ()));
+                    held.borrow_mut().push(Some((seq, k, (boxed, hung, false))));
                 }
                 Poll::Ready(None) => {
                     verdict = Some("C13-ended|the limited stream ended although the listener did not".into());
@@ -200,6 +212,7 @@ pub fn replay(n: u32, hist: &[Ev]) -> Outcome {
                     key: k,
                     seq: next_seq,
                     obs: obs.clone(),
+                    hung: Rc::new(std::cell::Cell::new(false)),
                 };
                 keys.borrow_mut().push(k);
                 next_seq += 1;
@@ -209,6 +222,19 @@ pub fn replay(n: u32, hist: &[Ev]) -> Outcome {
                 if let Some(v) = do_poll(n) {
                     violation.get_or_insert(v);
                 }
+            }
+            Ev::HangUp(i) => {
+                let mut h = held.borrow_mut();
+                let Some(Some((_, _, (stream, hung, done)))) = h.get_mut(i as usize) else {
+                    violation.get_or_insert("machinery|hang-up of a channel that is not held".into());
+                    break;
+                };
+                hung.set(true);
+                *done = true;
+                let waker = futures::task::noop_waker();
+                let mut cx = Context::from_waker(&waker);
+                let r = stream.as_mut().poll_next(&mut cx);
+                obs.borrow_mut().log.push(format!("  held channel polled after its peer hung up -> {}", match r { Poll::Ready(None) => "ended", Poll::Ready(Some(())) => "item", Poll::Pending => "pending" }));
             }
             Ev::Close(i) | Ev::CloseNested(i) => {
                 let nested = matches!(ev, Ev::CloseNested(_));
@@ -259,9 +285,12 @@ pub fn replay(n: u32, hist: &[Ev]) -> Outcome {
     // enabled events afterwards
     let mut enabled = vec![Ev::Arrive(0), Ev::Arrive(1), Ev::Poll];
     for (i, h) in held.borrow().iter().enumerate() {
-        if h.is_some() {
+        if let Some((_, _, (_, _, done))) = h {
             enabled.push(Ev::Close(i as u8));
             enabled.push(Ev::CloseNested(i as u8));
+            if !*done {
+                enabled.push(Ev::HangUp(i as u8));
+            }
         }
     }
     let mut hsh = std::collections::hash_map::DefaultHasher::new();
@@ -426,7 +455,7 @@ pub fn run_c13(tier: Tier) -> i32 {
             "traces_validated_against_impl": total_hist,
             "evaluations": total_hist,
             "distinct_nontrivial": nontrivial,
-            "rule": "breadth-first over ALL event histories up to the depth (alphabet: Arrive(key a), Arrive(key b) - two keys that are unequal but hash alike -, Poll of the limited stream, Close(i) of a held channel, CloseNested(i) = close with one listener poll at the yield point inside the tracker's drop); every history is replayed from scratch on a fresh real MaxChannelsPerKey and compared with a per-key counter at every dequeue; `states` counts distinct (alive multiset, pending arrivals, shed count) fingerprints, no merging is used to prune; non-trivial = a close adjacent to a poll/arrival or a nested poll that fired",
+            "rule": "breadth-first over ALL event histories up to the depth (alphabet: Arrive(key a), Arrive(key b) - two keys that are unequal but hash alike -, Poll of the limited stream, Close(i) of a held channel, CloseNested(i) = close with one listener poll at the yield point inside the tracker's drop, HangUp(i) = the peer of held channel i ends its stream and the application polls the channel once without dropping it); every history is replayed from scratch on a fresh real MaxChannelsPerKey and compared with a per-key counter at every dequeue; `states` counts distinct (alive multiset, pending arrivals, shed count) fingerprints, no merging is used to prune; non-trivial = a close adjacent to a poll/arrival or a nested poll that fired",
             "samples": samples,
             "exhaustive": !cut && machinery.is_empty(),
             "depth_completed": {"n1": completed_depth[0], "n2": completed_depth[1]},
